@@ -49,8 +49,15 @@ def _unit(name, props, crate, module, desc="", functions=(), timeout=180, tier="
 
 
 MATCHER = "grep-matcher"
+GLOBSET = "globset"
 
 UNITS = [
+    unit("c12_file_name", ["C12", "C04"], GLOBSET, "pathutil::verif_kani",
+         "pathutil::file_name on a fully symbolic <=6-byte path == last path component (None only for empty, `.`, `..`)",
+         ["globset::pathutil::file_name"], timeout=600),
+    unit("c12_file_name_ext", ["C12", "C04"], GLOBSET, "pathutil::verif_kani",
+         "pathutil::file_name_ext on a fully symbolic <=6-byte name == suffix from the last dot",
+         ["globset::pathutil::file_name_ext"], timeout=600),
     unit("c19_find_cap_ref_unbraced", ["C19"], MATCHER, "interpolate::verif_kani",
          "find_cap_ref on a fully symbolic <=5-byte buffer that is not a ${ reference agrees with the regex library's "
          "reference grammar ($name = longest [0-9A-Za-z_]+ run; integer names are group numbers)",
@@ -189,18 +196,23 @@ FAMILIES = [
     ShapeFamily("c03_slice_stop", ["C03", "C01"], SEARCHER, CORE_MOD, GEN,
                 "slow line path end-to-end == grep model with stop-on-nonmatch ON; symbolic hit table, "
                 "A,B in 0..=1, invert, line numbers",
-                SLOW_E2E_FUNCS, timeout=600, rules=searcher_rules(2)),
+                SLOW_E2E_FUNCS, timeout=900, rules=searcher_rules(2),
+                quick_shapes=["q_empty", "q_one", "q_one_unterm", "q_blank", "q_two", "q_blank_mid", "q_crlf_mix", "q_nul"]),
     ShapeFamily("c03_slice_passthru", ["C03", "C01"], SEARCHER, CORE_MOD, GEN,
                 "slow line path end-to-end == grep model with passthru ON; symbolic hit table, invert, "
                 "line numbers, stop-on-nonmatch",
                 SLOW_E2E_FUNCS, timeout=600, rules=searcher_rules(2)),
-    ShapeFamily("c03_fast_ctx", ["C03", "C01"], SEARCHER, CORE_MOD, GEN,
-                "FAST line path end-to-end (match_by_line_fast, find_by_line_fast Confirmed+Candidate, fast_invert) == grep "
-                "model; symbolic hit/candidate/offset tables, A,B in 0..=2, invert, line numbers",
-                FAST_FUNCS, timeout=900, rules=searcher_rules(2)),
-    ShapeFamily("c03_fast_stop", ["C03", "C01"], SEARCHER, CORE_MOD, GEN,
-                "fast line path with stop-on-nonmatch ON (switch to the slow loop after the first match) == grep model",
-                FAST_FUNCS, timeout=900, rules=searcher_rules(2)),
+    ShapeFamily("c03_fast_confirmed", ["C03", "C01"], SEARCHER, CORE_MOD, GEN,
+                "FAST line path end-to-end (match_by_line_fast, find_by_line_fast, fast_invert, switch-to-slow) == grep model; "
+                "matcher reports Confirmed offsets; hit patterns, invert, stop-on-nonmatch, offset position enumerated in-harness; "
+                "A,B in 0..=2 and line numbers symbolic",
+                FAST_FUNCS, timeout=900, rules=searcher_rules(2), unwind=lambda sh: 40, shape_filter=lambda sh: sh.nl <= 3),
+    ShapeFamily("c03_fast_candidate", ["C03", "C01"], SEARCHER, CORE_MOD, GEN,
+                "fast line path == grep model; matcher reports Candidate offsets (candidates == hits), re-check on stripped line",
+                FAST_FUNCS, timeout=900, rules=searcher_rules(2), unwind=lambda sh: 40, shape_filter=lambda sh: sh.nl <= 3),
+    ShapeFamily("c03_fast_candidate_all", ["C03", "C01"], SEARCHER, CORE_MOD, GEN,
+                "fast line path == grep model; every line is a Candidate (maximal prefilter false positives)",
+                FAST_FUNCS, timeout=900, rules=searcher_rules(2), unwind=lambda sh: 40, shape_filter=lambda sh: sh.nl <= 3),
     ShapeFamily("c02_reader_ctx", ["C02"], SEARCHER, CORE_MOD, GEN,
                 "ReadByLine over LineBufferReader, symbolic read sizes 1..=3, symbolic capacity 1..=4 (eager growth) "
                 "== grep model (== slice strategy); A,B in 0..=1, invert, line numbers",
@@ -256,7 +268,7 @@ def obligations(prop, tier, seed):
 def scratch_edits(sc, crates):
     """Scratch-only edits (never in /repo): extra dependencies that harnesses
     of a crate need (the oracle library for differential harnesses)."""
-    if "grep-matcher" in crates:
+    if True:  # grep-matcher is a dependency of every other crate: its harness file always compiles
         ct = os.path.join(sc.repo, "crates", "matcher", "Cargo.toml")
         s = open(ct).read()
         if "regex-automata" not in s:
@@ -453,6 +465,13 @@ H_OBLS = [
          "per accepted (pattern, options): for ALL byte strings up to L: no match contains the terminator (H-TERM); "
          "declared non-matching bytes occur in no match (H-NMB); the fast candidate-line regex (H-PREFILTER) and the "
          "extractor's literals (H-EXTRACT) miss no terminator-free line that matches", REGEX_FUNCS),
+    HObl("c12_glob", ["C12"], "glob", ["G-STRAT", "G-MEAN", "G-SET"],
+         "per accepted (glob, options): for ALL paths up to L bytes the strategy a glob set would use means the same as the "
+         "glob's regex (G-STRAT); globs over the simple token subset mean what the documented syntax says (G-MEAN); "
+         "GlobSet::matches equals the member globs' individual verdicts on one solver-chosen path per satisfiable verdict "
+         "combination (G-SET)",
+         ("globset::glob::MatchStrategy::new", "Glob::literal/basename_literal/ext/prefix/suffix/required_ext",
+          "Tokens::to_regex_with", "glob::Parser::*", "GlobSet::new", "GlobSet::matches_candidate_into", "*Strategy::matches_into")),
     HObl("c01_regex", ["C01"], "regex", ["H-OPTS", "H-LOC", "H-PREFILTER"],
          "per accepted (pattern, options): for ALL lines up to L the compiled pattern means what -i/-S/-w/-x/-F/-e say "
          "(H-OPTS, reference built from the raw pattern); its matches in a buffer are exactly the matches of the stripped "
